@@ -265,7 +265,8 @@ func (c *absCtx) abs(v reflect.Value) AV {
 			return AV{"k": "bytes", "s": hex.EncodeToString(v.Bytes())}
 		}
 		key := absKey{}
-		if !v.IsNil() && v.Len() > 0 {
+		// (zero-size elements all live at one address: such slices have no identity)
+		if !v.IsNil() && v.Len() > 0 && t.Elem().Size() > 0 {
 			key = absKey{reflect.Slice, v.Pointer(), v.Len(), t}
 		}
 		return c.container(v, key)
